@@ -45,8 +45,9 @@ type pathEnd struct {
 type abortPath struct{}
 type runtimePanic struct{ msg string } // Go run-time panic in the target (becomes a targetPanic)
 type targetPanic struct {
-	v   value
-	pos token.Pos
+	v     value
+	pos   token.Pos
+	stack []string
 }
 
 type inputVar struct {
@@ -77,6 +78,7 @@ type Violation struct {
 	Sched   []schedStep
 	Trace   []decision
 	Harness string
+	Stack   []string
 }
 
 type obsEntry struct {
